@@ -1069,6 +1069,50 @@ fn emit_case(out: &mut impl Write, cid: &str, lang_id: &str, lang: &Language, pa
         emit_c(out, "PC", &pc);
         writeln!(out, "chk f U P").unwrap();
         writeln!(out, "chk h P PC").unwrap();
+        // predicates UNDER A RANGE whose start falls between the captures of a match (the first
+        // capture ends at / before the range start, a later one lies inside): the predicate-filtered
+        // match stream is the filter of the raw stream under the same range (f), and the filtered
+        // capture stream agrees with the filtered match stream (hr)
+        let npr = if thorough { 4 } else { 2 };
+        for k in 0..npr {
+            let multi: Vec<&M> = u.iter().filter(|m| m.caps.len() >= 2).collect();
+            let (a, b) = if !multi.is_empty() && rng.chance(3, 4) {
+                let m = *rng.pick(&multi);
+                let mut starts: Vec<usize> = m.caps.iter().map(|c| c.r[0]).collect();
+                let mut ends: Vec<usize> = m.caps.iter().map(|c| c.r[1]).collect();
+                starts.sort();
+                ends.sort();
+                // at / after the end of the earliest-ending capture, at most at the start of the last one
+                let lo = ends[0];
+                let hi = *starts.last().unwrap();
+                let a = if lo <= hi { rng.range(lo, hi) } else { lo };
+                let b = if rng.chance(1, 2) { text.len() } else { rng.range(a, text.len()) };
+                (a, b.max(a))
+            } else {
+                rand_point_range(&mut rng, text, &bounds, &zero_width)
+            };
+            let use_point = rng.chance(1, 3);
+            let mut cfg = Cfg::default();
+            let (pa, pb) = (pt_at(text, a), pt_at(text, b));
+            let (kind, rdesc) = if use_point {
+                cfg.point = Some((pa, pb));
+                ("p", format!("0 0 {} {} {} {}", pa.row, pa.column, pb.row, pb.column))
+            } else {
+                cfg.byte = Some((a, b));
+                ("b", format!("{a} {b} 0 0 0 0"))
+            };
+            let mut c3 = QueryCursor::new();
+            let (rm, _) = run_matches(&mut c3, &q0, &tree, text, &cfg, &mut ids, None);
+            let (pr, _) = run_matches(&mut c3, &q, &tree, text, &cfg, &mut ids, None);
+            let mut c4 = QueryCursor::new();
+            let (prc, _) = run_captures(&mut c4, &q, &tree, text, &cfg, &mut ids, None, None);
+            emit_m(out, &format!("RM{k}"), &rm);
+            emit_m(out, &format!("PR{k}"), &pr);
+            emit_c(out, &format!("PRC{k}"), &prc);
+            writeln!(out, "chk f RM{k} PR{k}").unwrap();
+            writeln!(out, "chk hr PR{k} PRC{k} RM{k} {kind} {rdesc}").unwrap();
+            st.checks += 2;
+        }
         // the text provider may hand out a node's text in pieces: same result
         let mut fc = QueryCursor::new();
         let pk = run_matches_chunked(&mut fc, &q, &tree, text, &mut ids);
